@@ -11,6 +11,10 @@ Spec file format (sections start with a line `@@<keyword> ...`):
   @@closure <tok> <tok> ...        (optional) lift the closure literal starting with these tokens
   @@lifted_sig <text>              (with @@closure) signature of the lifted function, up to and
                                    excluding the contract / body
+  @@region_from <stmt tokens>      (R4) lift the statements from this one through the end of the first loop nest after it
+  @@region_occurrence <k>          which occurrence of the anchor inside the function (default 0)
+  @@region_tail <text>             text appended after the region inside the lifted fn (returned variable)
+  @@lifted_prefix / @@lifted_suffix  text around the lifted fn (e.g. `impl ArrayV {` ... `}`)
   @@loops <n>                      number of loops expected in the extracted text (anchor check)
   @@attrs                          attribute lines placed before `fn`
   @@contract                       requires/ensures text placed between signature and body
@@ -66,6 +70,11 @@ class Section:
         self.body_end = ""
         self.loop_ann = {}  # (k, where) -> text
         self.loop_headers = {}  # k -> expected header text
+        self.region_from = None   # R4: first statement of the lifted region (token-exact, whitespace-insensitive)
+        self.region_occurrence = 0
+        self.region_tail = ""     # text appended after the region inside the lifted fn (e.g. the returned variable)
+        self.lifted_prefix = ""   # text before the lifted fn (e.g. `impl ArrayV {`)
+        self.lifted_suffix = ""   # text after it (e.g. `}`)
 
 
 class UnitSpec:
@@ -121,6 +130,16 @@ class UnitSpec:
                     cur_fn.closure = parts[1:]
                 elif kw == "lifted_sig":
                     cur_fn.lifted_sig = line[2 + len("lifted_sig"):].strip()
+                elif kw == "region_from":
+                    cur_fn.region_from = line[2 + len("region_from"):].strip()
+                elif kw == "region_occurrence":
+                    cur_fn.region_occurrence = int(parts[1])
+                elif kw == "region_tail":
+                    cur_fn.region_tail = line[2 + len("region_tail"):].strip()
+                elif kw == "lifted_prefix":
+                    cur_fn.lifted_prefix = line[2 + len("lifted_prefix"):].strip()
+                elif kw == "lifted_suffix":
+                    cur_fn.lifted_suffix = line[2 + len("lifted_suffix"):].strip()
                 elif kw == "loops":
                     cur_fn.loops = int(parts[1])
                 elif kw in ("attrs", "contract", "body_start", "body_end"):
@@ -198,7 +217,29 @@ def build_function(src, sec):
     fn = find_fn(src, toks, sec.name, sec.occurrence)
     info = {"fn": sec.name}
     edits = []  # (start, end, replacement)
-    if sec.closure:
+    region_mode = sec.region_from is not None
+    if region_mode:
+        # R4 statement-range lifting: from the anchor statement through the end of the first loop nest that follows it
+        want = [t.text for t in lex(sec.region_from)]
+        hits = [k for k in range(fn.tok_lo, fn.tok_hi - len(want))
+                if all(toks[k + d].text == want[d] for d in range(len(want)))]
+        if len(hits) <= sec.region_occurrence:
+            raise ExtractError("fn %s: region anchor `%s` found %d times" % (sec.name, sec.region_from, len(hits)))
+        k0 = hits[sec.region_occurrence]
+        lps = [lp for lp in find_loops(toks, k0, fn.tok_hi)]
+        if not lps:
+            raise ExtractError("fn %s: no loop after the region anchor" % sec.name)
+        first = lps[0]
+        region_lo, region_hi = toks[k0].start, first.body_close + 1
+        span_text = src[region_lo:region_hi]
+        body_open, body_close = region_lo - 1, region_hi  # virtual body: annotations at body_start/end unsupported here
+        tok_lo = k0
+        tok_hi = next(i for i, t in enumerate(toks) if t.start >= first.body_close)
+        header = (sec.lifted_prefix + "\n" if sec.lifted_prefix else "") + (sec.attrs or "") + sec.lifted_sig + "\n" + (sec.contract or "") + "{\n" + (sec.body_start or "")
+        info["lifted_from"] = sec.name
+        info["lifted_name"] = re.search(r"fn\s+(\w+)", sec.lifted_sig).group(1)
+        info["region"] = sec.region_from
+    elif sec.closure:
         bo, bc, tko, tkc = find_closure(src, toks, fn.tok_lo, fn.tok_hi, sec.closure)
         region_lo, region_hi = bo, bc + 1          # `{ ... }` of the closure
         span_text = src[region_lo:region_hi]
@@ -233,9 +274,9 @@ def build_function(src, sec):
         if not got.startswith(" ".join(expected.split()) + " "):
             raise ExtractError("fn %s: loop %d header is `%s`, contract was written for `%s` (loop structure changed; anchors lost)"
                                % (sec.name, k, got, expected))
-    if sec.body_start:
+    if sec.body_start and not region_mode:
         edits.append((body_open + 1, body_open + 1, "\n" + sec.body_start))
-    if sec.body_end:
+    if sec.body_end and not region_mode:
         edits.append((body_close, body_close, "\n" + sec.body_end))
     for (k, where), text in sec.loop_ann.items():
         if k < 1 or k > len(loops):
@@ -267,6 +308,8 @@ def build_function(src, sec):
     text = _strip_cfg_attrs(text)
     if header is not None:
         text = header + text
+    if region_mode:
+        text = text + "\n" + (sec.body_end or "") + sec.region_tail + "\n}\n" + (sec.lifted_suffix + "\n" if sec.lifted_suffix else "")
     return text, info
 
 
